@@ -361,6 +361,12 @@ def opcall_source(rng, version='3.1'):
     if k == 8:
         return fill(rng.choice(['if (%s) then %s else %s', 'for $x in %s return ($x, %s, %s)',
                            'some $x in %s satisfies $x = %s or %s', 'every $x in %s satisfies $x != %s and %s']), a, b, c)
+    if k == 9 and version >= '3.1' and rng.random() < 0.4:
+        name = rng.choice(['reverse', 'head', 'tail', 'sort', 'contains', 'for-each', 'filter', 'abs', 'string', 'count', 'concat',
+                           'array:size', 'map:keys', 'fn:upper-case', 'remove', 'insert-before', 'data', 'empty', 'exists'])
+        return rng.choice([fill('%s => %s()', a, name), fill('%s => %s(%s)', a, name, b), fill('%s => %s(%s) => %s()', a, name, b, name),
+                           fill('%s => (function($s) { count($s) })()', a), fill('%s => (%s)()', a, b),
+                           fill('(%s => concat(?, %s))(%s)', a, b, c)])
     if k == 9 and version >= '3.1':
         return fill(rng.choice(['(%s)?(%s)', '(%s)?*', '(%s)(%s)', '%s => %s()', 'map{%s: %s}', '[%s, %s]',
                            'array{%s, %s}', '(%s) ! (%s)']), a, b)
